@@ -23,6 +23,11 @@ Theorem C17_escape_keeps_clean_text :
   forall s, Forall (fun c => bad_c0 c = false) s -> Forall (fun c => c <> 239%N) s -> fix_chars s = s.
 Proof. exact fix_chars_id. Qed.
 
+(** reading the escaped text back (undoing the five entity references) recovers every character of the text that
+    was written, except that a backslash reads as an apostrophe (the writer escapes '\' as &apos;) *)
+Theorem C17_escape_is_reversible : forall s : bytes, unescape (escape_xml s) = map as_read (fix_chars s).
+Proof. exact unescape_escape. Qed.
+
 (** a figure written with [d] decimals: sign, integer part, point, exactly [d] digits, and the number these digits
     denote is within half a unit of the last decimal of the figure *)
 Theorem C17_figures_at_precision :
@@ -53,6 +58,7 @@ Proof. vm_compute. repeat split; reflexivity. Qed.
 Print Assumptions C17_xml_well_formed.
 Print Assumptions C17_escape_any_text.
 Print Assumptions C17_escape_keeps_clean_text.
+Print Assumptions C17_escape_is_reversible.
 Print Assumptions C17_figures_at_precision.
 Print Assumptions C17_json_rounding.
 Print Assumptions C17_tables_order_independent.
